@@ -313,6 +313,17 @@ func genC17(cs *CaseSet, rng *Rng, tier string, dir string) {
 					connect(ips[3], "usr")
 				}
 			}
+			if h%3 == 1 {
+				// a temporary ban that runs out soon, replaced by a permanent one before it does: after the first one's
+				// expiry instant the address must still be turned away
+				u := time.Now().Add(1500 * time.Millisecond)
+				must(env.Srv.BanList.Add(ips[4], &u))
+				ops = append(ops, mkOp(5, "add-ban", []byte(ips[4]), []byte{1}, be64(u.UnixNano())))
+				obs = append(obs, [][]byte{})
+				doAdd(ips[4], 0)
+				time.Sleep(1800 * time.Millisecond)
+				connect(ips[4], "usr")
+			}
 			nOps := 12 + rng.Intn(8)
 			for k := 0; k < nOps; k++ {
 				r := rng.Intn(20)
